@@ -356,7 +356,8 @@ class Precondition:
         :param old_to_new_param_names:
         :return:
         """
-        for _, condition in self:
+        # iterating over the direct operands so that the nested conditions rename their own (in)equalities.
+        for condition in self.operands:
             if isinstance(condition, Predicate):
                 condition.change_signature(old_to_new_param_names)
 
